@@ -280,3 +280,39 @@ V('c12-twin-reorder-independent', 'C12', 'hl7apy/core.py',
   "            list_index = self.list.index(old_child)\n            by_name_index = self.indexes[old_child.name].index(old_child)",
   "            by_name_index = self.indexes[old_child.name].index(old_child)\n            list_index = self.list.index(old_child)",
   expect='clean')
+
+# ---------------------------------------------------------------- C03
+V('c03-fields-skip-on-keyerror', 'C03', 'hl7apy/parser.py',
+  "        try:\n            reference = references[name]['ref'] if references is not None else None\n        except KeyError:\n            reference = None\n\n        if field.strip() or name is None:",
+  "        try:\n            reference = references[name]['ref'] if references is not None else None\n        except KeyError:\n            continue\n\n        if field.strip() or name is None:",
+  rule='C03-P')
+V('c03-components-drop-beyond-structure', 'C03', 'hl7apy/parser.py',
+  "        if component.strip() or component_name is None or component_name.startswith(\"VARIES_\"):\n            components.append(",
+  "        if (component.strip() or component_name is None or component_name.startswith(\"VARIES_\")) and \\\n                (references is None or reference is not None):\n            components.append(",
+  rule='C03-P')
+V('c03-subcomponents-max-three', 'C03', 'hl7apy/parser.py',
+  "        if subcomponent.strip() or subcomponent_name is None:\n            subcomponents.append(",
+  "        if index > 20:\n            break\n        if subcomponent.strip() or subcomponent_name is None:\n            subcomponents.append(",
+  rule='C03-P')
+V('c03-repetitions-first-only', 'C03', 'hl7apy/parser.py',
+  "                for rep in field.split(repetition_sep):\n                    fields.append(parse_field(rep, name, version, encoding_chars, validation_level,\n                                              reference, force_varies))",
+  "                for rep in field.split(repetition_sep):\n                    if rep != field and name is not None and name.startswith('MSH'):\n                        continue\n                    fields.append(parse_field(rep, name, version, encoding_chars, validation_level,\n                                              reference, force_varies))",
+  rule='C03-P')
+V('c03-segments-sorted', 'C03', 'hl7apy/parser.py', "    return segments\n\n\ndef parse_segment(",
+  "    return sorted(segments, key=lambda e: e.name != 'MSH')\n\n\ndef parse_segment(", rule='C03-O')
+V('c03-get-children-filters', 'C03', 'hl7apy/core.py', "        return [(v,) for v in self.list]",
+  "        return [(v,) for v in self.list if v.name is not None]", rule='C03-O')
+V('c03-parse-field-raises-on-unknown', 'C03', 'hl7apy/parser.py',
+  "        else:\n            field = Field(version=version, validation_level=validation_level, reference=reference)\n",
+  "        else:\n            raise\n", rule='C03-U')
+V('c03-encoder-drops-unnamed', 'C03', 'hl7apy/core.py',
+  "            for i in xrange(self._last_allowed_child_index + 1, self._last_child_index + 1):\n                children.append(self.children.indexes.get('{}_{}'.format(self.name, i), None))\n        children.extend([c for c in self.children.get_children() if c[0].name in (None, 'ST')])",
+  "            for i in xrange(self._last_allowed_child_index + 1, self._last_child_index + 1):\n                children.append(self.children.indexes.get('{}_{}'.format(self.name, i), None))",
+  rule='C03-U')
+V('c03-fix-fallthrough', 'C03', 'hl7apy/parser.py',
+  "                        if current_parent is None:\n                            segments.append(segment)\n                        else:\n                            current_parent.add(segment)\n                        break\n    return segments",
+  "                        if current_parent is None:\n                            segments.append(segment)\n                        else:\n                            current_parent.add(segment)\n                        break\n            else:\n                segments.append(parse_segment(s.strip(), version, encoding_chars, validation_level))\n    return segments",
+  expect='fixed:C03-P|parser.parse_segments')
+V('c03-twin-enumerate-start', 'C03', 'hl7apy/parser.py',
+  "    for index, subcomponent in enumerate(text.split(subcomp_sep)):",
+  "    pieces = text.split(subcomp_sep)\n    for index, subcomponent in enumerate(pieces):", expect='clean')
